@@ -1,6 +1,7 @@
 import Fs.Core.Wire
 import Fs.Model.Vars
 import Fs.Model.Gen
+import Fs.Drv.Params
 /-! Driver handler for the `vars` model (C15). -/
 namespace Fs.Drv.Vars
 open Fs.Wire Fs.Vars
@@ -50,6 +51,16 @@ def hstep (h : HSt) (op : String) : HSt :=
     let r := Impl.inline env text
     let tag := if r == Spec.inline env text then "" else "!impl≠spec"
     { h with out := h.out ++ [s!"{encRes r}{tag}|{encBool (refInLiteral text)}"] }
+  | ["b", i, t, vals] =>
+    -- a statement with bound parameters: `<inlined command or error>|lit|pct|<final text>`
+    let cmd := decStr t
+    let env := h.w.env i.toNat!
+    let lit := encBool (refInLiteral cmd)
+    let pct := encBool (refPct env (tokenize (.copy false) cmd))
+    let args := Fs.Params.Args.seq ((vals.splitOn "+").map fun v => (Fs.Drv.Params.decVal v).lit)
+    match Impl.inline env cmd, execBound env cmd args with
+    | .ok t', some (f, _) => { h with out := h.out ++ [s!"ok:{encStr t'}|{lit}|{pct}|{Fs.Drv.Params.encFmt f}"] }
+    | r, _ => { h with out := h.out ++ [s!"{encRes r}|{lit}|{pct}|-"] }
   | _ => { h with out := h.out ++ ["bad"] }
 
 def handle : List String → String
